@@ -232,6 +232,15 @@ type seqWork struct {
 
 // runSeqWorks executes all works in parallel and reports into c.
 func runSeqWorks(c *ev.Ctx, works []seqWork) {
+	if c.Lite() && len(works) > 12 {
+		var keep []seqWork
+		for i, w := range works {
+			if i%6 == int(uint64(c.Seed)%6) || (w.Seq.N >= 60000 && w.Seq.N <= 3000000) {
+				keep = append(keep, w)
+			}
+		}
+		works = keep
+	}
 	parallel(len(works), func(i int) {
 		w := works[i]
 		bits := w.Seq.Bits()
